@@ -638,10 +638,15 @@ def c09(tier, seed):
             if res != 'ok -':
                 L.do('new r')
         elif ctor == 'composeinto':
-            L.do('new r'); L.do('add r u900 [] -')
+            L.do('new r')
+            if j % 3:
+                L.do('add r u900 [] -')
             L.do('composeinto c0 c1 r'); srcs = ['c0', 'c1']
         elif ctor == 'copyinto':
-            L.do('new r'); L.do('add r u900 [] -'); L.do('copyinto c0 r')
+            L.do('new r')
+            if j % 3:
+                L.do('add r u900 [] -')
+            L.do('copyinto c0 r'); L.do('!samecontent-sub c0 r')
         elif ctor == 'addfrom':
             L.do('new r'); L.do('addfrom r c0 {}')
         L.do('alias'); L.do('!noshare r ' + ' '.join(srcs))
@@ -1091,7 +1096,10 @@ def c16(tier, seed):
                 L.do('dset c1 %s %d %d' % (t, rng.randrange(3), rng.randrange(5, 9)))
         L.do('!snap c0 c1')
         if kind == 3:
-            L.do('new c2'); L.do('add c2 u970 [] -'); L.do('addb c2 u971 [u970,u972] -'); L.do('!snap c2')
+            L.do('new c2')
+            if i % 2 == 0:                   # a target with unrelated names; otherwise an empty target
+                L.do('add c2 u970 [] -'); L.do('addb c2 u971 [u970,u972] -')
+            L.do('!snap c2')
             res = L.do('composeinto c0 c1 c2')
         else:
             res = L.do('compose c0 c1 c2')
@@ -1123,14 +1131,14 @@ def c17(tier, seed):
             names = L.toks('c0')
             if names:
                 L.do('relabel c0 {%s:u%d}' % (rng.choice(names), 980))
-        L.do('!snap c0'); L.do('json c0 c1'); L.do('!samecontent c0 c1'); L.do('!jsontext c0'); L.do('!same c0')
+        L.do('!snap c0'); L.do('json c0 c1'); L.do('!lastok JSON_round_trip'); L.do('!samecontent c0 c1'); L.do('!jsontext c0'); L.do('!same c0')
         L.do('obs c1'); L.do('q c0 eq c1'); L.do('json c1 c2'); L.do('obs c2')
         yield L.case()
     for j in range(200 if tier == 'quick' else 2000):
         g = FiltGen(seed * 4241 + j, ['int', 'str'][j % 2])
         g.run(rng.randrange(4, 14))
         g.do('setidx f %d' % rng.choice(IDX))
-        g.do('json f c1'); g.do('!samecontent f c1'); g.do('!jsontext f'); g.do('obs c1')
+        g.do('json f c1'); g.do('!lastok JSON_round_trip'); g.do('!samecontent f c1'); g.do('!jsontext f'); g.do('obs c1')
         yield g.case('C17 filtration encodes the complex at its index seed=%d' % (seed * 4241 + j))
     yield dict(lines=['!json-known'], pool='str', tag='C17 KNOWN marker inside attribute value')
 
